@@ -2,7 +2,7 @@
 from pyvc import core, regexfacts
 from pyvc.core import Obl, DISCHARGED, FAILED, UNDECIDED
 from props import common
-from props.C05 import region_rule_obligations
+from props.C05 import region_rule_obligations, region_language_obligations
 
 
 def dictionary_obligations(rep):
@@ -58,12 +58,16 @@ def run(rep):
     common.verify_functions(rep, [('sqlparse.lexer.Lexer.is_keyword', 'full')])
     dictionary_obligations(rep)
     region_rule_obligations(rep)
+    region_language_obligations(rep, 'C14')
     for o in rep.obls:
         if o.id.startswith('C05/'):
             o.id = 'C14/' + o.id[4:]
     common.run_bounded(rep, 'C14', rep.tier, rep.seed)
-    rep.assumptions += ['regex semantics of re for the opacity of region bodies: BOUNDED only (region contract over the '
-                        'class alphabet), never counted as proved',
+    rep.assumptions += ['opacity of region bodies: the region rules of SQL_REGEX as regular languages (z3 regex theory over code '
+                        'points below 0x30000: O1 every well-formed region is in its rule\'s language, O2 a lazy rule cannot stop '
+                        'early, O3 a greedy rule cannot run on); the translation of re syntax to a language is trusted and '
+                        'every counter-model is replayed on the real lexer; which of several matching prefixes backtracking '
+                        'picks, look-around rules and dollar-quoted bodies (back reference): BOUNDED only',
                         'dict membership / lookup modelled as uninterpreted functions per dictionary']
     rep.trusted += ['CPython re engine', 'dict']
     return common.finish(rep)
